@@ -80,6 +80,15 @@ def build_runner(race=False):
         return _built[key]
     os.makedirs(os.path.join(WORK, "bin"), exist_ok=True)
     h = os.path.join(ROOT, "harness")
+    suffix = ""
+    if REPO != "/repo":
+        # a scratch tree (seeded-change experiments): build from a private copy of the harness so that
+        # concurrent runs against /repo are not disturbed
+        suffix = "-" + hashlib.md5(REPO.encode()).hexdigest()[:8]
+        hc = os.path.join(WORK, "harness" + suffix)
+        shutil.rmtree(hc, ignore_errors=True)
+        shutil.copytree(h, hc)
+        h = hc
     gomod = os.path.join(h, "go.mod")
     with open(gomod, "w") as f:
         f.write("module github.com/bufbuild/connect-go/verifharness\n\ngo 1.18\n\n"
@@ -87,7 +96,7 @@ def build_runner(race=False):
                 "\tgoogle.golang.org/protobuf v1.28.0\n)\n\n"
                 "replace github.com/bufbuild/connect-go => %s\n" % REPO)
     shutil.copy(os.path.join(REPO, "go.sum"), os.path.join(h, "go.sum"))
-    out = os.path.join(WORK, "bin", "runner-" + key)
+    out = os.path.join(WORK, "bin", "runner-" + key + suffix)
     cmd = ["go", "build", "-tags", "verif", "-o", out]
     if race:
         cmd.append("-race")
